@@ -77,25 +77,29 @@ def detect(d, tier="quick", props=None):
     return out
 
 
-def matrix(tier="quick"):
-    """Run, for every seeded change, the check of its own property (and record which other checks see it)."""
+ALL_PROPS = ["C%02d" % i for i in range(1, 21)]
+
+
+def matrix(tier="quick", every=False):
+    """Run, for every seeded change, the check of its own property (`all`: every check, to record
+    which other checks see it)."""
     seeded = os.path.join(VERIF, "seeded")
     results = {}
     for name in sorted(os.listdir(seeded)):
         d = os.path.join(seeded, name)
         if not os.path.isfile(os.path.join(d, "patch.diff")):
             continue
-        r = detect(d, tier)
+        r = detect(d, tier, ALL_PROPS if every else None)
         results[name] = r
         print(name, json.dumps(r), flush=True)
-    json.dump(results, open(os.path.join(VERIF, "seeded", "RESULTS-%s.json" % tier), "w"), indent=1)
+    json.dump(results, open(os.path.join(VERIF, "seeded", "RESULTS-%s%s.json" % (tier, "-all" if every else "")), "w"), indent=1)
     missed = [k for k, v in results.items() if not v or not any(x["rc"] == 1 for x in v.values() if isinstance(x, dict))]
     print("MISSED:", missed)
 
 
 if __name__ == "__main__":
     if sys.argv[1] == "matrix":
-        matrix(sys.argv[2] if len(sys.argv) > 2 else "quick")
+        matrix(sys.argv[2] if len(sys.argv) > 2 else "quick", len(sys.argv) > 3 and sys.argv[3] == "all")
     elif sys.argv[1] == "validate":
         for d in sys.argv[2:]:
             r = validate(d)
